@@ -69,6 +69,42 @@ type dataPayload struct {
 	Seq     uint16   `xml:"seq,attr"`
 	SID     string   `xml:"sid,attr"`
 	Data    []byte   `xml:",chardata"`
+
+	// seqErr is set when a packet that was received has no seq attribute or one
+	// that is not a number between 0 and 65535.
+	seqErr error
+}
+
+// UnmarshalXML implements xml.Unmarshaler.
+// A seq attribute that cannot be parsed does not fail the decoding (an error
+// returned by a handler ends the whole session): it is recorded so that the
+// packet can be refused with a stanza error like any other bad packet.
+func (p *dataPayload) UnmarshalXML(d *xml.Decoder, start xml.StartElement) error {
+	p.XMLName = start.Name
+	p.Seq = 0
+	p.SID = ""
+	p.seqErr = strconv.ErrSyntax
+	for _, a := range start.Attr {
+		if a.Name.Space != "" {
+			continue
+		}
+		switch a.Name.Local {
+		case "seq":
+			n, err := strconv.ParseUint(a.Value, 10, 16)
+			if err != nil {
+				n = 0
+			}
+			p.Seq, p.seqErr = uint16(n), err
+		case "sid":
+			p.SID = a.Value
+		}
+	}
+	body := struct {
+		Data []byte `xml:",chardata"`
+	}{}
+	err := d.DecodeElement(&body, &start)
+	p.Data = body.Data
+	return err
 }
 
 func (p dataPayload) TokenReader() xml.TokenReader {
